@@ -108,7 +108,12 @@ def run(ctx, cases=None):
                         "compares the numeric value of each saved line and of each getter bit for bit",
                         "run_anyway is deliberately not saved (skip list); it has no effect once an output file is given",
                         "OpenGL-only members (gui, ForceOpenGLVersion: no getter in this build) are compared model vs implementation only"]
+    # a broken translation/proof/correspondence must not hide behind the open findings of this property
+    kf = load_known()
+    known = [v for v in ctx.violations if match_known(kf, v) is not None]
+    ctx.violations = [v for v in ctx.violations if match_known(kf, v) is None]
     conclude(ctx, coq, dis)
+    ctx.violations += known
 
 
 def replay(ctx, rp):
